@@ -114,8 +114,19 @@ def _propagation(ctx, rep):
         (pm, "PartialParse.apply_rule", "ts", None, 0, None),      # rule(ts, *window)
         (rm, "rule.fwrapper.wrapper", "ts", None, 0, None),        # f(ts, *args)
     ]
+    from .common import registered_callable
     for mod, qual, pname, callee, idx, kw in hops:
-        f = mod.func(qual)
+        how = None
+        if qual == "rule.fwrapper.wrapper" and qual not in mod.funcs:
+            # the decorator registers some other callable (e.g. an instance of a class with __call__)
+            f, how = registered_callable(mod)
+            if f is None:
+                rep.undecided("reference-time", "{}::{}::{}".format(mod.rel, qual, pname), mod.rel,
+                              "what the rule decorator registers is not recognised")
+                continue
+            qual = getattr(f, "_qual", qual)
+        else:
+            f = mod.func(qual)
         params = [a.arg for a in f.args.args]
         if pname not in params:
             raise AnalysisError("anchor vanished: parameter {} of {}".format(pname, qual))
@@ -132,6 +143,8 @@ def _propagation(ctx, rep):
             cands = set(params) | _closure_names(f)
             calls = [c_ for c_ in calls_in(f) if isinstance(c_.func, ast.Name) and c_.func.id in cands
                      and c_.args]
+            if how is not None and how[0] == "self":
+                calls = [c_ for c_ in calls_in(f) if norm(c_.func) == "self." + how[1] and c_.args]
         if not calls:
             rep.violated("reference-time", c + " -> " + str(callee or "production"), mod.where(f),
                          "no call forwards the reference time")
